@@ -234,3 +234,36 @@ def deep_strings(du, v, out=None, depth=0):
         for a in v[3]:
             deep_strings(du, a, out, depth + 1)
     return out
+
+
+FULL_ADAPTORS = ("::iter", "::iter_mut", "::into_iter", "std::iter::Iterator::map", "std::iter::Iterator::cloned", "std::iter::Iterator::copied",
+                 "std::iter::Iterator::by_ref", "std::iter::Iterator::inspect", "as std::clone::Clone>::clone")
+FULL_CONSUMERS = ("std::iter::Iterator::collect", "std::iter::Iterator::for_each", "std::iter::Iterator::fold", "::into_iter")
+
+
+def fully_iterated(fn, du, elem_ty):
+    """values (vectors / slices of `elem_ty`) every element of which is visited, in order: the operand of a `for` loop, or the base of
+    an iterator chain made of one-to-one adaptors (`iter().map(..)`) that ends in collect / for_each / fold.
+    Returns [(block of the consuming call, base value)]"""
+    from ..callgraph import callee_name
+    out = []
+    for bid, t in fn.calls():
+        c = callee_name(t) or ""
+        decl = t.get("callee") or ""
+        if not t["args"] or not (c.endswith(FULL_CONSUMERS) or decl in FULL_CONSUMERS):
+            continue
+        tys = " ".join((t.get("arg_tys") or []) + (t.get("gargs") or []))
+        if elem_ty not in tys:
+            continue
+        v = du.val_operand(t["args"][0])
+        ok = True
+        for _ in range(8):
+            if v[0] == "call" and v[1] and v[2] and (v[1].endswith(FULL_ADAPTORS) or v[1] in FULL_ADAPTORS):
+                v = v[2][0]
+                continue
+            if v[0] == "call":
+                ok = False        # filter / skip / take / rev / chain ...: not every element, or not in order
+            break
+        if ok:
+            out.append((bid, v))
+    return out
